@@ -33,6 +33,15 @@ CHECKS = {
  "C15": (MC, "bounded-exhaustive enumeration of field boundary values through the real codec (encode, decode, re-encode, prefixes, concatenations)",
          "428 values over all 37 payload types (product of per-field boundary domains): exact byte consumption, identical re-encoding, structural equality, type tables; every strict prefix fails with an error; all ordered pairs/triples of representatives decode as a stream.",
          "Dependency-typed fields compared through their own encoding.", "DESIGN.md §4 C15"),
+ "C16": (MC, "explicit-state BFS over call/response histories of the real RemoteClient.Run + stateless schedule exploration (one deviation at every point, all alternatives of multi-ready selects) + bounded-exhaustive outputs lookups",
+         "All histories up to depth 4 (6) of concurrent calls of mixed kinds, server answers in any order (proper/reject/none), unsolicited responses, clock past the request time-out; every call gets its own key's response, the server's reject, or a time-out. With an immediately answering server: stall/pre-emption at every scheduling point and every select alternative. All outpoint lists <= 3 over 2 txids x {0,1,out of range}.",
+         "Scripted server over the virtual network with the real codec and real signatures; RemoteClient, the threads package, channels, selects, timers and atomics run on the controlled scheduler.", "DESIGN.md §4 C16"),
+ "C17": (MC, "explicit-state BFS over server notification streams / drops / reconnects + stateless schedule exploration with an immediately replaying server",
+         "All streams up to depth 5 (7) of Tx/TxUpdate with next/repeated/skipped/old/far ids, Headers, InSync, drops and reconnects (Ready(NextMessageID()) from the handler; also a persisted first id 57 and a replaying server): consecutive ids from the declared id, NextMessageID = last+1, handlers identical, server order, nothing missed. Stall / pre-emption / drop at every scheduling point of two baselines.",
+         "As C16.", "DESIGN.md §4 C17"),
+ "C18": (MC, "explicit-state BFS over accept-message variants, application call placements and connection drops on the real RemoteClient.Run, both connection types",
+         "All histories up to depth 4 (6) with a manual server: ten accept variants (valid, unrelated key, key for another hash, other signer, root signer, altered message/utxo/push counts, signature over another hash, replayed previous accept), a request / subscription / Ready before and after accept and while disconnected, notifications, drops, reconnects: register verifies, only handshake types before the handshake, forged accept ends Run with an error and no data, success implies bytes at the server.",
+         "As C16.", "DESIGN.md §4 C18"),
  "C19": (MC, "stateless schedule exploration of the real Node.Run with one deviation (Stop / connection close / reset / stall / pre-emption) inserted at every scheduling point of scripted baselines",
          "Five baselines (cold start with sync+txs+block, refused dials, in sync with an untrusted peer, scripted connection loss, scripted Stop with concurrent application calls); at every scheduling point one deviation; Run/Stop return within retry delay + 4 s virtual time, no thread left, no callback after Stop, storage equals memory, reconnect converges without re-announcing.",
          NOTE_NODE + " Deviation bound 1 over scripted baselines (some baselines script a first event so that two-event races are covered); atomics are not scheduling points.", "DESIGN.md §4 C19"),
